@@ -1,4 +1,4 @@
-import SCModel.Model.Stats
+import SCModel.Model.World
 /-!
 # Driver — line-protocol interpreter of the model
 
@@ -81,9 +81,12 @@ def showErr : Err → String
   | .valueError => "ERR ValueError"
   | .assertion => "ERR Assertion"
 
-abbrev Env := List (String × St)
-def Env.get (e : Env) (k : String) : Option St := (e.find? (·.1 == k)).map (·.2)
-def Env.set (e : Env) (k : String) (v : St) : Env := (k, v) :: e.filter (·.1 != k)
+abbrev Env := List (String × Obj)
+def Env.getObj (e : Env) (k : String) : Option Obj := (e.find? (·.1 == k)).map (·.2)
+def Env.get (e : Env) (k : String) : Option St := (e.getObj k).map (·.f)
+def Env.setObj (e : Env) (k : String) (v : Obj) : Env := (k, v) :: e.filter (·.1 != k)
+/-- bind a register to a *new* object (fresh identity, empty caches) -/
+def Env.set (e : Env) (k : String) (v : St) : Env := e.setObj k (Obj.fresh v)
 
 inductive Operand | st (f : St) | sc (c : Val)
 
@@ -124,6 +127,42 @@ def statOf (f : St) (name : String) (lo hi : Option Rat) (c : IClosed) : Option 
       | "modes" => some (" ".intercalate ((modes g).map showRat))
       | _ => none
 
+def parseIv (s : String) : Option Iv :=
+  match s.splitOn ":" with
+  | [l, r] => do let l ← parseRat l; let r ← parseRat r; pure (l, r)
+  | _ => none
+
+/-- one slice's statistic as a value (for resample) -/
+def slicerStatVal (f : St) (name : String) (c : IClosed) (iv : Iv) : Option Rat :=
+  match name with
+  | "max" => match slicerExtreme true f c iv with | .ok v => v | .error _ => none
+  | "min" => match slicerExtreme false f c iv with | .ok v => v | .error _ => none
+  | _ =>
+    match clip f (some iv.1) (some iv.2) with
+    | .error _ => none
+    | .ok s =>
+      match name with
+      | "mean" => mean s | "integral" => integral s | "median" => median s | "mode" => mode s
+      | _ => none
+
+def slicerStatStr (f : St) (name : String) (c : IClosed) (iv : Iv) : String :=
+  match name with
+  | "modes" =>
+    match clip f (some iv.1) (some iv.2) with
+    | .error _ => "err"
+    | .ok s => match modes s with | [] => "err" | ms => "|".intercalate (ms.map showRat)
+  | "max" | "min" =>
+    match slicerExtreme (name == "max") f c iv with
+    | .ok (some v) => showRat v | .ok none => "nan" | .error _ => "err"
+  | _ =>
+    match clip f (some iv.1) (some iv.2) with
+    | .error _ => "err"
+    | .ok s =>
+      match name with
+      | "mean" => showVal (mean s) | "integral" => showVal (integral s) | "median" => showVal (median s)
+      | "var" => showVal (var s)
+      | _ => "bad"
+
 def step (e : Env) (line : String) : Env × String :=
   let toks := (line.trimAscii.toString.splitOn " ").filter (· ≠ "")
   let bad : Env × String := (e, "bad-op")
@@ -139,19 +178,23 @@ def step (e : Env) (line : String) : Env × String :=
     | some cl, some v, some rows => (e.set r (canon ⟨v, rows, cl⟩), "ok")
     | _, _, _ => bad
   | ["layer", r, s, t, v] =>
-    match e.get r with
+    match e.getObj r with
     | none => unbound
-    | some f =>
+    | some o =>
       match parseOptPt s, parseOptPt t, parseRat v with
-      | some s, some t, some v => (e.set r (layer f [⟨s, t, v⟩]), "ok")
+      | some s, some t, some v => (e.setObj r (o.layer [⟨s, t, v⟩]), "same")
       | _, _, _ => bad
   | "layerv" :: r :: ts =>
-    match e.get r with
+    match e.getObj r with
     | none => unbound
-    | some f =>
+    | some o =>
       match allSome (ts.map parseTriple) with
-      | some ts => (e.set r (layer f ts), "ok")
+      | some ts => (e.setObj r (o.layer ts), "same")
       | none => bad
+  | "ctor" :: r :: cl :: init :: ts =>
+    match parseSide cl, parseVal init, allSome (ts.map parseTriple) with
+    | some cl, some v, some ts => (e.set r (layer (Stairs.const v cl) ts), "ok")
+    | _, _, _ => bad
   | ["copy", r2, r] =>
     match e.get r with
     | none => unbound
@@ -217,6 +260,75 @@ def step (e : Env) (line : String) : Env × String :=
     | none, _ => unbound
     | some f, some d => assign e r2 (diff f d)
     | _, _ => bad
+  | ["rawframe", r] =>
+    match e.get r with
+    | none => unbound
+    | some f => (e, showFrame f)
+  | "q" :: r :: name :: args =>
+    match e.getObj r with
+    | none => unbound
+    | some o =>
+      let q : Option Query := match name, args with
+        | "integral", [] => some .integral | "mean", [] => some .mean | "var", [] => some .var
+        | "median", [] => some .median | "modes", [] => some .modes | "min", [] => some .min
+        | "max", [] => some .max | "vsums", [] => some .vsums
+        | "perc", [p] => (parseRat p).map .percentile
+        | "frac", [p] => (parseRat p).map .fractile
+        | "ecdf", [sd, y] => do let sd ← parseSide sd; let y ← parseRat y; pure (.ecdf sd y)
+        | _, _ => none
+      match q with
+      | none => bad
+      | some q => let (o', a) := o.query q; (e.setObj r o', " ".intercalate (a.map showVal))
+  | "agg" :: r2 :: name :: rs =>
+    let F : Option AggFn := match name with
+      | "sum" => some .sum | "mean" => some .mean | "median" => some .median | "min" => some .min
+      | "max" => some .max | "logical_or" => some .logicalOr | "logical_and" => some .logicalAnd | _ => none
+    match F, allSome (rs.map e.get) with
+    | some F, some ms => assign e r2 (aggregate F ms)
+    | none, _ => bad
+    | _, none => unbound
+  | "slicer" :: r :: name :: c :: ivs =>
+    match e.get r with
+    | none => unbound
+    | some f =>
+      match parseIClosed f.closed c, allSome (ivs.map parseIv) with
+      | some c, some ivs => (e, " ".intercalate (ivs.map fun iv => slicerStatStr f name c iv))
+      | _, _ => bad
+  | "resample" :: r2 :: r :: name :: c :: ivs =>
+    match e.get r with
+    | none => unbound
+    | some f =>
+      match parseIClosed f.closed c, allSome (ivs.map parseIv) with
+      | some c, some ivs =>
+        if !nonOverlapping ivs then (e, "ERR ValueError") else
+        match allSome (ivs.map fun iv => slicerStatVal f name c iv) with
+        | none => (e, "ERR Assertion")
+        | some vals => assign e r2 (resampleWith f ivs vals)
+      | _, _ => bad
+  | ["rolling", r, l, rr, lo, hi] =>
+    match e.get r with
+    | none => unbound
+    | some f =>
+      match parseRat l, parseRat rr, parseOptPt lo, parseOptPt hi with
+      | some l, some rr, some lo, some hi =>
+        match rollingMean f l rr lo hi with
+        | .ok rows => (e, " ".intercalate (rows.map fun (x, y) => s!"{showRat x}:{showVal y}"))
+        | .error err => (e, showErr err)
+      | _, _, _, _ => bad
+  | "describe" :: r :: lo :: hi :: ps =>
+    match e.get r with
+    | none => unbound
+    | some f =>
+      match parseOptPt lo, parseOptPt hi, allSome (ps.map parseRat) with
+      | some lo, some hi, some ps =>
+        match clipW f lo hi with
+        | .error err => (e, showErr err)
+        | .ok g =>
+          let ps := if ps.isEmpty then [25, 50, 75] else ps
+          let c := defaultIClosed g.closed
+          let out := [mean g, var g, minIn g none none c, maxIn g none none c] ++ ps.map (percentile g)
+          (e, " ".intercalate (out.map showVal))
+      | _, _, _ => bad
   | ["frame", r] =>
     match e.get r with
     | none => unbound
